@@ -119,6 +119,12 @@ def keyOf (e : Extractor) (l : Line) : Bytes :=
   | .ok (.matched k) => k
   | _ => []
 
+/-- the outcome of the line exists and has class `c` -/
+def outcomeIs (e : Extractor) (c : Cls) (l : Line) : Bool :=
+  match processLine e l with
+  | .ok o => o.cls == c
+  | .error _ => false
+
 /-- No expression evaluation panics on these lines (C08 proves it for every line and every template over
     the modelled function registry; slices of a real matcher's indices are in range). -/
 def NoPanic (e : Extractor) (ls : List Line) : Prop := ∀ l ∈ ls, ∃ o, processLine e l = .ok o
@@ -176,5 +182,14 @@ def harnessIndicesN (l : Bytes) : List Int :=
     | none => [0, l.length, -1, -1, -1, -1]
 
 def harnessNamesN : List (Bytes × Int) := [(ascii "val", 1), (ascii "key", 2), (ascii "all", 0)]
+
+/-- A small configuration for the non-vacuity examples: ignore `{eq {line} 1}` (hand-compiled: a look-up of
+    `line` compared with `1`), extract `{src}:{0}`, two sources `a.log`, `b.log`. -/
+def exampleExtractor : Extractor where
+  matcher := harnessIndices
+  names := []
+  ignore := some [Comp.getKey (ascii "line") fun v => .ret (if v = ascii "1" then ascii "1" else [])]
+  extract := Comp.getKey (ascii "src") fun s => .getMatch 0 fun m => .ret (s ++ [58] ++ m)
+  sourceName := fun i => if i = 0 then ascii "a.log" else ascii "b.log"
 
 end Rare.C01
